@@ -270,3 +270,193 @@ Proof.
   apply D_anch3; [apply Dsign; assumption|intros; apply D1; apply in_Dg; assumption|].
   intros; apply Dstar. apply (Forall_cls dig_); [exact in_Du|assumption].
 Qed.
+
+(* ======== the other notations ======== *)
+
+Lemma last_in : forall (alpha : list Z) a, a <> [] -> Forall (fun c => In c alpha) a -> In (last_rune a) alpha.
+Proof. intros. unfold last_rune. apply (Forall_last (fun c => In c alpha)); assumption. Qed.
+
+(* the head of DecodeAtom for an atom over an alphabet without : & \ that BoolRegex rejects *)
+Lemma decode_head : forall alpha a, a <> [] -> Forall (fun c => In c alpha) a ->
+  ~ In 58 alpha -> ~ In 38 alpha -> ~ In 92 alpha -> re_match re_BoolRegex a = false ->
+  (re_match re_Uint64Regex a || re_match re_DecimalRegex a || re_match re_HexRegex a || re_match re_OctRegex a ||
+   re_match re_BinaryRegex a || re_match re_FloatRegex a = true) ->
+  decode_atom a =
+    if re_match re_Uint64Regex a then Some (mkTok TUint64 a)
+    else if re_match re_DecimalRegex a then Some (mkTok TDecimal a)
+    else if re_match re_HexRegex a then Some (mkTok THex (skipn 2 a))
+    else if re_match re_OctRegex a then Some (mkTok TOct (skipn 2 a))
+    else if re_match re_BinaryRegex a then Some (mkTok TBinary (skipn 2 a))
+    else if re_match re_FloatRegex a then Some (mkTok TFloat a)
+    else None.
+Proof.
+  intros alpha a Hne F N58 N38 N92 Hb Hsome. unfold decode_atom.
+  assert (last_rune a =? 58 = false) as Hl.
+  { apply Z.eqb_neq. intros E. apply N58. rewrite <- E. apply last_in; assumption. }
+  rewrite Hl. cbv beta zeta iota. destruct a as [|c a']; [congruence|]. inversion F; subst.
+  cbn [list_eqb].
+  replace (c =? 38) with false by (symmetry; apply Z.eqb_neq; intros E; apply N38; rewrite <- E; assumption).
+  replace (c =? 92) with false by (symmetry; apply Z.eqb_neq; intros E; apply N92; rewrite <- E; assumption).
+  cbn [andb]. rewrite Hb.
+  destruct (re_match re_Uint64Regex (c :: a')); [reflexivity|].
+  destruct (re_match re_DecimalRegex (c :: a')); [reflexivity|].
+  destruct (re_match re_HexRegex (c :: a')); [reflexivity|].
+  destruct (re_match re_OctRegex (c :: a')); [reflexivity|].
+  destruct (re_match re_BinaryRegex (c :: a')); [reflexivity|].
+  destruct (re_match re_FloatRegex (c :: a')); [reflexivity|]. discriminate Hsome.
+Qed.
+
+Ltac notin := simpl; intros HH; repeat (destruct HH as [HH|HH]; [discriminate HH|]); exact HH.
+
+(* -- decimal with sign and underscores -- *)
+Lemma cert_bool_K : no_match_cert re_BoolRegex (states_of re_BoolRegex alphaK 3) alphaK = true.
+Proof. vm_compute. reflexivity. Qed.
+Lemma cert_u64_K : no_match_cert re_Uint64Regex (states_of re_Uint64Regex alphaK 3) alphaK = true.
+Proof. vm_compute. reflexivity. Qed.
+
+Theorem classify_dec : forall sg c ip, sign_ok sg -> digit c -> Forall dig_ ip ->
+  decode_atom (sg ++ c :: ip) = Some (mkTok TDecimal (sg ++ c :: ip)).
+Proof.
+  intros sg c ip Hs Hc Hi.
+  assert (Forall (fun x => In x alphaK) (sg ++ c :: ip)) as F
+    by (apply Forall_app; split; [apply sign_inK; assumption|constructor; [apply dig__inK; left; assumption|apply Forall_dig_K; assumption]]).
+  assert (sg ++ c :: ip <> []) as Hne by (destruct sg; discriminate).
+  assert (re_match re_DecimalRegex (sg ++ c :: ip) = true) as Hx by (apply dec_U; assumption).
+  rewrite (decode_head alphaK) by (try assumption; try notin; try (apply (no_match _ _ _ cert_bool_K); assumption); rewrite Hx, !orb_true_r; reflexivity).
+  rewrite (no_match _ _ _ cert_u64_K) by assumption. rewrite Hx. reflexivity.
+Qed.
+
+(* -- hex / octal / binary -- *)
+Definition alphaH : list Z := digits10 ++ [65; 66; 67; 68; 69; 70; 97; 98; 99; 100; 101; 102; 120; 111; 85; 76].
+
+Lemma hexd_inH : forall c, hexd c -> In c alphaH.
+Proof.
+  intros c [H|[H|H]].
+  - apply in_or_app; left. apply digit_in10. exact H.
+  - apply in_or_app; right.
+    assert (c = 65 \/ c = 66 \/ c = 67 \/ c = 68 \/ c = 69 \/ c = 70) as HH by lia.
+    repeat (destruct HH as [HH|HH]); subst; simpl; tauto.
+  - apply in_or_app; right.
+    assert (c = 97 \/ c = 98 \/ c = 99 \/ c = 100 \/ c = 101 \/ c = 102) as HH by lia.
+    repeat (destruct HH as [HH|HH]); subst; simpl; tauto.
+Qed.
+Lemma Forall_hexd_H : forall w, Forall hexd w -> Forall (fun c => In c alphaH) w.
+Proof. intros w F. eapply Forall_impl; [|exact F]. exact hexd_inH. Qed.
+
+Lemma cert_bool_H : no_match_cert re_BoolRegex (states_of re_BoolRegex alphaH 5) alphaH = true.
+Proof. vm_compute. reflexivity. Qed.
+
+Lemma two_kill : forall R a b w, deriv false b (deriv true a R) = Empty -> re_match R (a :: b :: w) = false.
+Proof. intros R a b w H. rewrite re_match_cons, matches_cons, H. apply matches_Empty. Qed.
+
+(* Uint64Regex needs the suffix ULL: nothing that ends in a hex digit matches *)
+Definition alphaHx : list Z := digits10 ++ [65; 66; 67; 68; 69; 70; 97; 98; 99; 100; 101; 102; 120; 111].
+Lemma cert_u64_Hx : no_match_cert re_Uint64Regex (states_of re_Uint64Regex alphaHx 4) alphaHx = true.
+Proof. vm_compute. reflexivity. Qed.
+Lemma hexd_inHx : forall c, hexd c -> In c alphaHx.
+Proof.
+  intros c [H|[H|H]].
+  - apply in_or_app; left. apply digit_in10. exact H.
+  - apply in_or_app; right.
+    assert (c = 65 \/ c = 66 \/ c = 67 \/ c = 68 \/ c = 69 \/ c = 70) as HH by lia.
+    repeat (destruct HH as [HH|HH]); subst; simpl; tauto.
+  - apply in_or_app; right.
+    assert (c = 97 \/ c = 98 \/ c = 99 \/ c = 100 \/ c = 101 \/ c = 102) as HH by lia.
+    repeat (destruct HH as [HH|HH]); subst; simpl; tauto.
+Qed.
+
+Lemma in_H : forall x, In x [120; 111; 85; 76] -> In x alphaH.
+Proof. intros x H. apply in_or_app; right. simpl in *. tauto. Qed.
+
+Lemma prefixed_common : forall p hs, (p = 120 \/ p = 111 \/ p = 98) -> hs <> [] -> Forall hexd hs ->
+  let a := 48 :: p :: hs in
+  a <> [] /\ Forall (fun c => In c alphaH) a /\ re_match re_BoolRegex a = false /\ re_match re_Uint64Regex a = false /\
+  re_match re_DecimalRegex a = false.
+Proof.
+  intros p hs Hp Hne F a.
+  assert (In p alphaH) as Hpin by (destruct Hp as [H|[H|H]]; subst; apply in_or_app; right; simpl; tauto).
+  assert (Forall (fun c => In c alphaH) a) as Fa
+    by (constructor; [apply in_or_app; left; simpl; tauto|constructor; [exact Hpin|apply Forall_hexd_H; exact F]]).
+  split; [discriminate|]. split; [exact Fa|]. split; [apply (no_match _ _ _ cert_bool_H); exact Fa|].
+  split.
+  - apply (no_match _ _ _ cert_u64_Hx). constructor; [apply in_or_app; left; simpl; tauto|].
+    constructor; [destruct Hp as [H|[H|H]]; subst; apply in_or_app; right; simpl; tauto|].
+    eapply Forall_impl; [|exact F]. exact hexd_inHx.
+  - apply two_kill. destruct Hp as [H|[H|H]]; subst; vm_compute; reflexivity.
+Qed.
+
+Theorem classify_hex : forall h hs, hexd h -> Forall hexd hs ->
+  decode_atom (48 :: 120 :: h :: hs) = Some (mkTok THex (h :: hs)).
+Proof.
+  intros h hs Hh F.
+  destruct (prefixed_common 120 (h :: hs)) as [Hne [Fa [Hb [Hu Hd]]]]; [auto|discriminate|constructor; assumption|].
+  assert (re_match re_HexRegex (48 :: 120 :: h :: hs) = true) as Hx.
+  { apply D_complete. unfold re_HexRegex. change (48 :: 120 :: h :: hs) with (([48] ++ [120]) ++ (h :: hs)).
+    apply D_anch2; [apply Dcat; intros; apply D1; reflexivity|].
+    apply Dplus; [apply in_Hx; assumption|apply (Forall_cls hexd); [exact in_Hx|assumption]]. }
+  rewrite (decode_head alphaH) by (try assumption; try notin; rewrite Hx, !orb_true_r; reflexivity). rewrite Hu, Hd.
+  rewrite Hx. reflexivity.
+Qed.
+
+Lemma octd_hexd : forall c, octd c -> hexd c. Proof. intros c H. left. unfold octd in H. lia. Qed.
+Lemma bind_hexd : forall c, bind c -> hexd c. Proof. intros c [H|H]; left; lia. Qed.
+
+Theorem classify_oct : forall h hs, octd h -> Forall octd hs ->
+  decode_atom (48 :: 111 :: h :: hs) = Some (mkTok TOct (h :: hs)).
+Proof.
+  intros h hs Hh F.
+  assert (Forall hexd (h :: hs)) as Fh by (constructor; [apply octd_hexd; assumption|eapply Forall_impl; [|exact F]; exact octd_hexd]).
+  destruct (prefixed_common 111 (h :: hs)) as [Hne [Fa [Hb [Hu Hd]]]]; [auto|discriminate|exact Fh|].
+  assert (forall c, octd c -> in_cls c [(48, 55)] = true) as Hin
+    by (intros c Hc; unfold octd in Hc; unfold in_cls; rewrite orb_false_r; apply andb_true_iff; split; apply Z.leb_le; lia).
+  assert (re_match re_OctRegex (48 :: 111 :: h :: hs) = true) as Hx.
+  { apply D_complete. unfold re_OctRegex. change (48 :: 111 :: h :: hs) with (([48] ++ [111]) ++ (h :: hs)).
+    apply D_anch2; [apply Dcat; intros; apply D1; reflexivity|].
+    apply Dplus; [apply Hin; assumption|apply (Forall_cls octd); [exact Hin|assumption]]. }
+  rewrite (decode_head alphaH) by (try assumption; try notin; rewrite Hx, !orb_true_r; reflexivity). rewrite Hu, Hd.
+  rewrite (two_kill re_HexRegex 48 111) by (vm_compute; reflexivity).
+  rewrite Hx. reflexivity.
+Qed.
+
+Theorem classify_bin : forall h hs, bind h -> Forall bind hs ->
+  decode_atom (48 :: 98 :: h :: hs) = Some (mkTok TBinary (h :: hs)).
+Proof.
+  intros h hs Hh F.
+  assert (Forall hexd (h :: hs)) as Fh by (constructor; [apply bind_hexd; assumption|eapply Forall_impl; [|exact F]; exact bind_hexd]).
+  destruct (prefixed_common 98 (h :: hs)) as [Hne [Fa [Hb [Hu Hd]]]]; [auto|discriminate|exact Fh|].
+  assert (forall c, bind c -> in_cls c [(48, 49)] = true) as Hin
+    by (intros c [Hc|Hc]; subst; reflexivity).
+  assert (re_match re_BinaryRegex (48 :: 98 :: h :: hs) = true) as Hx.
+  { apply D_complete. unfold re_BinaryRegex. change (48 :: 98 :: h :: hs) with (([48] ++ [98]) ++ (h :: hs)).
+    apply D_anch2; [apply Dcat; intros; apply D1; reflexivity|].
+    apply Dplus; [apply Hin; assumption|apply (Forall_cls bind); [exact Hin|assumption]]. }
+  rewrite (decode_head alphaH) by (try assumption; try notin; rewrite Hx, !orb_true_r; reflexivity). rewrite Hu, Hd.
+  rewrite (two_kill re_HexRegex 48 98) by (vm_compute; reflexivity).
+  rewrite (two_kill re_OctRegex 48 98) by (vm_compute; reflexivity).
+  rewrite Hx. reflexivity.
+Qed.
+
+(* -- the ULL suffix, with an optional 0x / 0o prefix -- *)
+Definition upre_ok (pre : list Z) : Prop := pre = [] \/ pre = [48; 120] \/ pre = [48; 111].
+
+Theorem classify_ull : forall pre h hs, upre_ok pre -> hexd h -> Forall hexd hs ->
+  decode_atom (pre ++ (h :: hs) ++ str_ULL) = Some (mkTok TUint64 (pre ++ (h :: hs) ++ str_ULL)).
+Proof.
+  intros pre h hs Hp Hh F.
+  assert (Forall (fun c => In c alphaH) (pre ++ (h :: hs) ++ str_ULL)) as Fa.
+  { apply Forall_app; split.
+    - destruct Hp as [H|[H|H]]; subst; repeat constructor; try (apply in_or_app; left; simpl; tauto); apply in_H; simpl; tauto.
+    - apply Forall_app; split; [constructor; [apply hexd_inH; assumption|apply Forall_hexd_H; assumption]|].
+      repeat constructor; apply in_H; simpl; tauto. }
+  assert (pre ++ (h :: hs) ++ str_ULL <> []) as Hne by (destruct pre; discriminate).
+  assert (re_match re_Uint64Regex (pre ++ (h :: hs) ++ str_ULL) = true) as Hx.
+  { apply D_complete. unfold re_Uint64Regex. apply D_anch3.
+    - destruct Hp as [H|[H|H]]; subst; intros; [apply Dopt_none| |];
+        (apply Dopt_some; change [48; 120] with ([48] ++ [120]); change [48; 111] with ([48] ++ [111]);
+         apply Dcat; intros; apply D1; reflexivity).
+    - apply Dplus; [apply in_Hx; assumption|apply (Forall_cls hexd); [exact in_Hx|assumption]].
+    - change str_ULL with ([85] ++ ([76] ++ [76])). apply Dcat; [intros; apply D1; reflexivity|].
+      apply Dcat; intros; apply D1; reflexivity. }
+  rewrite (decode_head alphaH) by (try assumption; try notin; try (apply (no_match _ _ _ cert_bool_H); assumption); rewrite Hx; reflexivity).
+  rewrite Hx. reflexivity.
+Qed.
